@@ -38,6 +38,13 @@ TRUSTED_EXTRA = (
     "C19: samples are tied to the laws by Dvoretzky-Kiefer-Wolfowitz bounds (failure probability < 1e-6 per check), not by proof",
 )
 
+def pre_lean(ctx) -> None:
+    """Translator: regenerate Gen/C19Params.lean from the current sources of /repo."""
+    from harness import c19_translate
+
+    ctx.gen_changed = c19_translate.write()
+
+
 # --------------------------------------------------------------------------- stream B runner
 
 
